@@ -252,13 +252,6 @@ func verifyImage(res *caseResult, caseIdx int, img imgfs.Image, shards int, name
 				return "owner-name-was-durable"
 			}
 		}
-		var ids []uint32
-		for _, n := range names {
-			if n.k.kind == kind {
-				ids = append(ids, n.id)
-			}
-		}
-		o.count(fmt.Sprintf("debug_owner_unknown_%s_%d_known_ids_%v", kind, id, ids), 1)
 		return "owner-unknown"
 	}
 	// fresh names must not get ids that recovered dictionaries or recovered index entries use
